@@ -1359,6 +1359,15 @@ impl Config {
                 extra_tals_dir.display().to_string(),
             );
         }
+        insert(&mut res, "no-rir-tals", self.no_rir_tals);
+        insert(
+            &mut res, "tals",
+            toml::Value::Array(
+                self.bundled_tals.iter()
+                    .map(|tal| toml::Value::from(tal.clone()))
+                    .collect()
+            )
+        );
         insert(
             &mut res, "exceptions",
             toml::Value::Array(
